@@ -256,13 +256,23 @@ def run(ctx):
         if fxc is None:
             continue
         run_loops(ctx, fxc, "R04.2", {"L9", "L6", "L11", "L4"})
+    check_notifier(ctx, fx, "R04.3")
+    check_awaiters(ctx, fx)
+    return core.finish(ctx)
+
+
+def check_notifier(ctx, fx, RULE="R04.3"):
+    """the termination notice is sent by `StopNotifier::notify` and by nothing else, and only the event loops (after the
+    completed stopped(), R04.3 / L11) call it: every other way out of a loop drops the notifier unsent, which is how awaiting an
+    address tells a failed actor from a stopped one (shared with C06 and C11)"""
     # notify body: sends on the oneshot it owns
     nf = fx.fn("context::StopNotifier::notify")
-    if ctx.require(nf is not None, "R04.3", "notify-exists", "context::StopNotifier::notify not found"):
-        b = ctx.body(fx, nf)
+    if ctx.require(nf is not None, RULE, "notify-exists", "context::StopNotifier::notify not found"):
+        import inline
+        b = inline.body(ctx, fx, nf, inline.not_public)
         sends = [t for _, t in b.normal_calls() if (t.get("callee") or "").startswith("futures_channel::oneshot::") and (t.get("callee") or "").endswith("::send")]
         ok = len(sends) == 1 and any(o.kind == "arg" for o in b.origins(sends[0]["args"][0]))
-        ctx.require(ok, "R04.3", "notify-sends", "StopNotifier::notify must complete the oneshot it owns exactly once", fn=nf["def"], site=nf["loc"], detail={"sends": len(sends)})
+        ctx.require(ok, RULE, "notify-sends", "StopNotifier::notify must complete the oneshot it owns exactly once", fn=nf["def"], site=nf["loc"], detail={"sends": len(sends)})
     # notify has exactly the loops as callers
     callers = sorted({f["def"] for f, _bi, _t in graph.all_calls(fx, nfa.callee_is("context::StopNotifier::notify"))})
     loop_defs = sorted(f["def"] for f, _ in loops.find_loops(fx))
@@ -276,9 +286,23 @@ def run(ctx):
         if who and all(w in loop_defs or w in callers for w in who):
             helpers.add(c)
     callers = [c for c in callers if c not in helpers]
-    ctx.require(set(callers) <= set(loop_defs) and (callers or helpers), "R04.3", "notify-callers", "StopNotifier::notify is called outside the event loops: %s" % [c for c in callers if c not in loop_defs], site=nf and nf["loc"], detail=callers)
-    check_awaiters(ctx, fx)
-    return core.finish(ctx)
+    ctx.require(set(callers) <= set(loop_defs) and (callers or helpers), RULE, "notify-callers", "StopNotifier::notify is called outside the event loops: %s" % [c for c in callers if c not in loop_defs], site=nf and nf["loc"], detail=callers)
+    # ... and nothing else completes that channel: no other function of the crate (a `Drop` of the notifier, a helper) sends on a
+    # `oneshot::Sender<()>` that is a field of the notifier
+    nadt = fx.adts.get("context::StopNotifier")
+    notify_helpers = graph.private_helpers(fx, {nf["def"]}) if nf is not None else set()
+    others = []
+    if nadt is not None:
+        for g in fx.d["fns"]:
+            if g["def"] == (nf or {}).get("def") or "pre" not in g or g.get("root", g["def"]) in notify_helpers:
+                continue
+            if "context::StopNotifier" not in " ".join(g.get("inputs") or []) + (g.get("impl_self") or ""):
+                continue
+            gb = ctx.body(fx, g)
+            for _bi, t in gb.normal_calls():
+                if (t.get("callee") or "").startswith("futures_channel::oneshot::") and (t.get("callee") or "").endswith("::send") and "Sender<()>" in (t.get("self_ty") or ""):
+                    others.append((g["def"], t["l"]))
+    ctx.require(not others, RULE, "notice-sent-only-by-notify", "the termination notice is also sent outside StopNotifier::notify (on a path that is not a graceful end the awaiters would see Ok): %s" % [o[0] for o in others], fn=others[0][0] if others else None, site=others[0][1] if others else None)
 
 
 class StopThenAwait(nfa.Spec):
